@@ -1,19 +1,20 @@
 #!/bin/bash
-# trymut.sh <name> <check>... : apply /verif/seeded/<name>/patch.diff to /repo, run the given checks (quick), undo.
+# trymut.sh <name> <check>... : apply seeded/<name>/patch.diff to /repo, run the given checks (quick), undo.
+VERIF=$(cd "$(dirname "$0")/.." && pwd)
 name=$1; shift
-p=/verif/seeded/$name/patch.diff
-log=/verif/seeded/$name/detect.log
+p=$VERIF/seeded/$name/patch.diff
+log=$VERIF/seeded/$name/detect.log
 : > $log
 cd /repo
 if [ -n "$(git status --porcelain -- src)" ]; then echo "REPO DIRTY, abort" | tee -a $log; exit 2; fi
 if ! git apply $p 2>>$log; then echo "$name: patch does not apply" | tee -a $log; exit 2; fi
-cd /verif
+cd $VERIF
 res=""
 for c in "$@"; do
-  out=$(VERIF_NO_EVIDENCE=1 VERIF_REPLAY_DIR=/verif/seeded/$name/replays ./check $c --tier quick 2>&1); rc=$?
+  out=$(VERIF_NO_EVIDENCE=1 VERIF_REPLAY_DIR=$VERIF/seeded/$name/replays ./check $c --tier quick 2>&1); rc=$?
   echo "=== $c rc=$rc" >> $log; echo "$out" | cut -c1-600 >> $log
   nsig=$(echo "$out" | grep -c "^VIOLATION")
   res="$res $c:rc$rc/$nsig"
 done
-git -C /repo checkout -- . 
+git -C /repo checkout -- .
 echo "$name ->$res" | tee -a $log
